@@ -558,6 +558,14 @@ def specs(ctx):
             add(workers=workers, pre="parentfile")
         for workers in (1, 2, 3):
             add(workers=workers, shape=shape(), patch=rng.choice(["centers", "name"]))
+        # a Parquet file with row groups of unequal sizes: healthy (the exact catalog), and with a value fault
+        for workers in (1, par()):
+            for shp in ((14, 5), (23, 5), (17, 4)):
+                add(workers=workers, source="parquet", shape=shp, patch=rng.choice(["centers", "name"]))
+            add(workers=workers, source="parquet", shape=(23, 5), fault=dict(kind="nan", chunk=rng.choice([0, 4]), col=rng.choice(["ra", "w"])))
+        # the missing value as a python object in a pandas table, every column
+        for (kk, col) in (("objnone", "dec"), ("objnone", "w"), ("objnan", "ra"), ("objnone", "z")):
+            add(workers=rng.choice([1, par()]), source="df", shape=shape(), patch=rng.choice(["name", "centers"]), fault=dict(kind=kk, chunk=1, col=col))
         # ---- creation OVER a pre-existing valid catalog, overwrite=True: fault kind x position x old size x mode
         # (kind index advances by one per case, three cases per group, four kinds: every kind meets every position,
         # the pairing differs from one old size / mode to the next; finalize faults alternate early / late)
@@ -622,6 +630,10 @@ def specs(ctx):
         add(workers=workers, source="hdf5", fault=dict(kind="missing", chunk=0, col="z"))
         add(workers=workers, source="hdf5", fault=dict(kind="nan", chunk=1, col="dec"))
         add(workers=workers, source="hdf5")
+        # a Parquet file with row groups of unequal sizes: healthy, and with a value fault in the first / last chunk
+        for shp in ((14, 5), (23, 5), (17, 4)):
+            add(workers=workers, source="parquet", shape=shp, patch=rng.choice(["centers", "name"]))
+        add(workers=workers, source="parquet", shape=(23, 5), fault=dict(kind="nan", chunk=rng.choice([0, 4]), col=rng.choice(["ra", "w"])))
         rnd = dict(source="random", weights=False, redshifts=False, ncent=2, shape=(80, 30))
         add(workers=workers, patch="none", **rnd)
         add(workers=workers, pre="catalog_other", overwrite=False, **rnd)
@@ -1053,7 +1065,7 @@ def signatures(spec, code, obs_kind, held="HClosed", held_how=""):
 
 def describe(spec):
     f = spec["fault"]
-    parts = ["from_%s" % {"df": "dataframe", "frame": "dataframe(frame double)", "hdf5": "file(hdf5)",
+    parts = ["from_%s" % {"df": "dataframe", "frame": "dataframe(frame double)", "hdf5": "file(hdf5)", "parquet": "file(parquet, unequal row groups)",
                           "random": "random" + ("(generator fails)" if f["kind"] == "genfail" else "")}[spec["source"]],
              "n=%d chunksize=%d max_workers=%d" % (spec["n"], spec["cs"], spec["workers"]), "patch=%s" % spec["patch"]]
     if f["kind"] == "gentable":
